@@ -233,11 +233,12 @@ pub trait QueryBuilder:
 
         self.prepare_update_condition(&update.from, &update.r#where, sql);
 
+        // RETURNING precedes ORDER BY / LIMIT (SQLite is the only backend that renders both)
+        self.prepare_returning(&update.returning, sql);
+
         self.prepare_update_order_by(update, sql);
 
         self.prepare_update_limit(update, sql);
-
-        self.prepare_returning(&update.returning, sql);
     }
 
     fn prepare_update_join(&self, _: &[TableRef], _: &ConditionHolder, _: &mut dyn SqlWriter) {
@@ -320,11 +321,12 @@ pub trait QueryBuilder:
 
         self.prepare_condition(&delete.r#where, "WHERE", sql);
 
+        // RETURNING precedes ORDER BY / LIMIT (SQLite is the only backend that renders both)
+        self.prepare_returning(&delete.returning, sql);
+
         self.prepare_delete_order_by(delete, sql);
 
         self.prepare_delete_limit(delete, sql);
-
-        self.prepare_returning(&delete.returning, sql);
     }
 
     /// Translate ORDER BY expression in [`DeleteStatement`].
